@@ -60,8 +60,22 @@ def same_shape(t, dims):
     return isinstance(t, T.Tensor) and t.ndim == len(dims) and all(T.dim_eq(a, T.norm_dim(b)) for a, b in zip(t.shape, dims))
 
 
+def same_shape_sem(E, t, dims):
+    """dimension-wise equality, decided under the path condition where it is not syntactic"""
+    if not (isinstance(t, T.Tensor) and t.ndim == len(dims)):
+        return False
+    for a, b in zip(t.shape, dims):
+        if T.dim_eq(a, T.norm_dim(b)):
+            continue
+        if isinstance(a, int) and isinstance(b, int):
+            return False
+        if E.may(C.compare("!=", a, b)):
+            return False
+    return True
+
+
 def shape_is(E, name, t, dims, what=""):
-    if same_shape(t, dims):
+    if same_shape_sem(E, t, dims):
         E.st.ok(name)
         return True
     E.st.fail(name, f"{what} shape {getattr(t, 'shape', type(t).__name__)} but the property requires {tuple(dims)}")
@@ -92,11 +106,11 @@ def member_stub(shared):
 class Ens:
     """real GaussianMLPEnsemble (real __init__) with arbitrary trained parameter values + its specification"""
 
-    def __init__(self, E, D, n_ens=None):
+    def __init__(self, E, D, n_ens=None, n_features=None):
         self.E = E
         self.D = D
         self.K = n_ens if n_ens is not None else E.dim("n_ensemble")
-        self.F = E.dim("n_features")
+        self.F = n_features if n_features is not None else E.dim("n_features")
         rngs = E.shared.lib.funcs["flax.nnx.Rngs"].fn(E, 0)
         self.obj = E.call(PE + "GaussianMLPEnsemble", self.K, False, self.F, D, [8, 8], "relu", rngs)
         # parameters after training are arbitrary
@@ -487,7 +501,6 @@ def h_norm_angle(E):
     a = E.real("angle")
     r = E.call(RM + "norm_angle", a)
     E.oblige("post.range", band(r >= -pi, r < pi))
-    k = E.st.fresh_sym("k", INT)
     E.oblige("post.identity_on_principal_range", implies(band(a >= -pi, a < pi), r == a))
     E.oblige("post.congruent_mod_2pi", C.compare("==", r, norm_spec(a)))
     E.oblige("canary.norm_angle", r == 0, assume_after=False)
@@ -518,6 +531,234 @@ def mk_gaussian_mlp(shared_head, hidden, rank):
     return h
 
 
+# ---------------------------------------------------------------------------
+# ts_inf : trajectory sampling with one bootstrap member per particle
+# ---------------------------------------------------------------------------
+def decorated(E, qualname):
+    """module-level function with its REAL decorators applied (jit is the identity;
+    partial(jax.vmap, in_axes=...) is evaluated from the source)"""
+    from pyvc.interp import Frame
+
+    cl = E.resolve(qualname)
+    fr = Frame(f"{cl.module.name}.<module>", cl.module)
+    v = cl
+    for d in reversed(cl.node.decorator_list):
+        v = E.call_value(E.eval(d, fr), [v], {})
+    return v
+
+
+def mk_ts_inf(H, D, A):
+    """bounded stand-in: concrete plan horizon H, observation size D, action size A
+    (python loop over the horizon; rows with a concrete feature count);
+    numbers of samples / particles / ensemble members symbolic"""
+    def h(E):
+        S, P = E.dim("n_samples"), E.dim("n_particles")
+        en = Ens(E, D, n_features=D + A)
+        keys = T.fresh_tensor("keys", (S, P), KEY)
+        midx = T.fresh_tensor("model_idx", (P,), INT)
+        E.st.assume_forall([INT], lambda p: z3.Implies(inb(p, P), z3.And(C.as_int(midx.at(p)) >= 0, C.as_int(midx.at(p)) < C.to_z3(en.K))), "model_idx.range")
+        acts = T.fresh_tensor("acts", (S, H, A), REAL)
+        obs0 = T.fresh_tensor("obs", (D,), REAL)
+        fn = decorated(E, PETS + "ts_inf")
+        traj = E.call(fn, keys, midx, acts, obs0, en.obj)
+        if not shape_is(E, "post.shape", traj, (S, P, H + 1, D), "trajectories"):
+            return
+        forall_eq(E, "post.starts_at_current_observation", T.index(traj, (slice(None), slice(None), 0)), lambda s, p, d: obs0.at(d), (S, P, D))
+        from pyvc.lib.jax_model import split_l
+        dists = E.st.ghost.get("tfp_dists", [])
+        rank2_noise = bool(dists) and len(T.broadcast_shapes(dists[-1].fields["loc"].shape, dists[-1].fields["scale"].shape)) == 2
+        n1 = C.uf("rand_normal1", KEY, INT, REAL)
+        n2 = C.uf("tfp_mvn_noise2", KEY, INT, INT, REAL)
+        ctor = C.uf(f"rowof{D + A}", *([REAL] * (D + A) + [ROW]))
+        for t in range(H):
+            def step(s, p, d, t=t):
+                o_t = [zr(traj.at(s, p, t, j)) for j in range(D)]
+                a_t = [zr(acts.at(s, t, j)) for j in range(A)]
+                row = ctor(*(o_t + a_t))                      # model input (obs_t, act_t)
+                i = midx.at(p)                                # the particle's own member, the same at every step
+                key_t = split_l(C.to_z3(keys.at(s, p)), z3.IntVal(t))   # step key: split(key, H)[t]
+                eps = n2(key_t, z3.IntVal(0), d) if rank2_noise else n1(key_t, d)   # standard-normal draw of this step
+                sample = en.mean(i, row, d) + T.scalar_fn("exp", HALF * en.log_var(i, row, d)) * Sym(eps)
+                return z3.Implies(z3.And(inb(s, S), inb(p, P), inb(d, D)),
+                                  zr(traj.at(s, p, t + 1, d)) == zr(traj.at(s, p, t, d)) + zr(sample))
+            E.st.oblige_forall(f"post.step{t}_adds_sample_of_own_member", [INT] * 3, step, hint="s", using=["model_idx"])
+        E.oblige("canary.ts_inf", Sym(zr(traj.at(0, 0, 1, 0)) == zr(obs0.at(0))), assume_after=False, using=[])
+    return h
+
+
+# ---------------------------------------------------------------------------
+# train_epoch (+ batch_update) : every batch trains member e on row e of the index tensor
+# ---------------------------------------------------------------------------
+def loss_observer(E, fn, args, kwargs):
+    if getattr(fn, "qualname", None) == PE + "gaussian_ensemble_loss" and not E.st.ghost.get("c17_in_obs"):
+        E.st.ghost["c17_in_obs"] = True
+        try:
+            v = E._call(fn, args, kwargs)
+        finally:
+            E.st.ghost["c17_in_obs"] = False
+        E.st.ghost.setdefault("c17_loss_calls", []).append(dict(args=list(args), value=v))
+        return (v,)
+    return None
+
+
+def setup_train_epoch(shared):
+    member_stub(shared)
+    shared.observers.append(loss_observer)
+
+
+def h_train_epoch(E):
+    D = E.dim("n_outputs")
+    en = Ens(E, D)
+    opt = mk_optimizer(E, "optimizer", en.obj)
+    n = E.dim("n_data", 1)
+    NB, BS = E.dim("n_batches", 1), E.dim("batch_size", 1)
+    X = rows_tensor(E, "X", (n,), en.F)
+    Y = T.fresh_tensor("Y", (n, D), REAL)
+    idx = T.fresh_tensor("indices", (NB, en.K, BS), INT)
+    iz = lambda k, e, b: C.as_int(idx.at(k, e, b))  # noqa: E731
+    E.st.assume_forall([INT] * 3, lambda k, e, b: z3.And(iz(k, e, b) >= 0, iz(k, e, b) < C.to_z3(n)), "indices.range")
+    res = E.call(PE + "train_epoch", en.obj, opt, X, Y, idx)
+    calls = E.st.ghost.get("c17_loss_calls", [])
+    scans = E.st.ghost.get("scans", [])
+    if len(calls) != 1 or len(scans) != 1:
+        E.st.fail("post.one_loss_evaluation_per_batch", f"{len(calls)} loss evaluations in {len(scans)} scans for the generic batch")
+        return
+    E.st.ok("post.one_loss_evaluation_per_batch")
+    k = scans[0]["k"]  # generic batch number, 0 <= k < n_batches
+    if T.dim_eq(T.norm_dim(scans[0]["length"]), NB):
+        E.st.ok("post.iterates_over_all_batches")
+    else:
+        E.st.fail("post.iterates_over_all_batches", f"scan length {scans[0]['length']}")
+    if isinstance(res, T.Tensor):
+        E.st.fail("post.returns_mean_batch_loss", f"shape {res.shape}")
+    else:
+        lk = C.to_z3(calls[0]["value"])
+        losses = T.Tensor((NB,), lambda j: Sym(z3.substitute(lk, (k.z, C.to_z3(j)))), REAL)
+        E.oblige("post.returns_mean_batch_loss", C.compare("==", res, T.mean(losses)), using=[])
+    model, Xb, Yb = calls[0]["args"]
+    (E.st.ok if model is en.obj else (lambda nm: E.st.fail(nm, "another model")))("post.loss_of_the_trained_model")
+    rng = lambda e, b: z3.And(inb(e, en.K), inb(b, BS))  # noqa: E731
+    if shape_is(E, "post.batch_inputs_shape", Xb, (en.K, BS, en.F), "X[batch]"):
+        rows = ensure_rows(E, Xb)
+        E.st.oblige_forall("post.member_e_trains_on_inputs_of_row_e", [INT, INT], lambda e, b: z3.Implies(rng(e, b), rows(e, b) == X.rows(iz(k.z, e, b))), hint="e", using=["indices"])
+    if shape_is(E, "post.batch_targets_shape", Yb, (en.K, BS, D), "Y[batch]"):
+        E.st.oblige_forall("post.member_e_trains_on_targets_of_row_e", [INT, INT, INT],
+                           lambda e, b, d: z3.Implies(z3.And(rng(e, b), inb(d, D)), zr(Yb.at(e, b, d)) == zr(Y.at(Sym(iz(k.z, e, b)), d))), hint="e", using=["indices"])
+    ups = E.st.ghost.get("opt_updates", [])
+    ok = len(ups) == 1 and ups[0]["opt"] is opt and ups[0]["model"] is en.obj and getattr(ups[0]["grads"], "wrt", None) is en.obj \
+        and C.to_z3(getattr(ups[0]["grads"], "value", 0)).eq(C.to_z3(calls[0]["value"]))
+    (E.st.ok if ok else (lambda nm: E.st.fail(nm, f"{len(ups)} optimizer updates / wrong model or gradient")))("post.one_update_with_gradient_of_that_loss")
+    E.oblige("canary.train_epoch", C.compare("==", res, 0), assume_after=False, using=[])
+
+
+def h_train_epoch_wrong_members(E):
+    """documented precondition: indices.shape[1] == n_ensemble (chex assertion)"""
+    D = E.dim("n_outputs")
+    en = Ens(E, D)
+    opt = mk_optimizer(E, "optimizer", en.obj)
+    n = E.dim("n_data", 1)
+    X = rows_tensor(E, "X", (n,), en.F)
+    Y = T.fresh_tensor("Y", (n, D), REAL)
+    idx = T.fresh_tensor("indices", (E.dim("n_batches", 1), E.dim("other_size"), E.dim("batch_size", 1)), INT)
+    kind, r = E.call_catch(PE + "train_epoch", en.obj, opt, X, Y, idx)
+    (E.st.ok if kind == "raise" else (lambda nm: E.st.fail(nm, "accepted")))("post.member_axis_mismatch_rejected")
+    E.oblige("canary.train_epoch_pre", Sym(z3.BoolVal(kind != "raise")), assume_after=False)
+
+
+# ---------------------------------------------------------------------------
+# train_ensemble : bootstrap once, joint shuffle per epoch, per-member batching
+# ---------------------------------------------------------------------------
+def epoch_obligations(E, ep):
+    """the index tensor handed to the epoch trainer (checked at every call of train_epoch)"""
+    g = E.st.ghost
+    en, opt, X, Y, m, BS, boot = (g["c17_ctx"][k] for k in ("en", "opt", "X", "Y", "m", "BS", "boot"))
+    idx, perm = ep["indices"], ep["perm"]
+    same = ep["model"] is en.obj and ep["optimizer"] is opt and ep["X"] is X and ep["Y"] is Y
+    (E.st.ok if same else (lambda nm: E.st.fail(nm, "different model / data")))("epoch.trains_the_given_model_on_the_given_data")
+    if not (isinstance(idx, T.Tensor) and idx.ndim == 3 and perm is not None and perm["src"] is boot and perm["axis"] == 1):
+        E.st.fail("epoch.indices_are_batched_joint_shuffle_of_bootstrap", f"indices {idx!r}, permutation {perm}")
+        return
+    E.st.ok("epoch.indices_are_batched_joint_shuffle_of_bootstrap")
+    prev = g.setdefault("c17_perm_keys", [])
+    fresh = all(not C.to_z3(perm["key"]).eq(C.to_z3(k0)) for k0 in prev)
+    prev.append(perm["key"])
+    (E.st.ok if fresh else (lambda nm: E.st.fail(nm, "shuffle key reused")))("epoch.fresh_shuffle_key")
+    mz, bz = C.to_z3(m), C.to_z3(BS)
+    NB = idx.shape[0]
+    nbz = C.to_z3(NB)
+    E.oblige("epoch.n_batches_is_floor_of_sample_size_over_batch_size", Sym(z3.And(nbz * bz <= mz, mz < (nbz + 1) * bz)), using=[])
+    if not shape_is(E, "epoch.index_shape_is_batches_members_batchsize", idx, (NB, en.K, BS), "indices"):
+        return
+    pi = perm["pi"]
+    col = lambda k, b: b * nbz + k  # noqa: E731  position in the shuffled row: (b, k) -> b * n_batches + k
+    rng = lambda k, e, b: z3.And(inb(k, NB), inb(e, en.K), inb(b, BS))  # noqa: E731
+    # member e, batch k, slot b reads ITS OWN bootstrap row e at a valid column
+    E.st.oblige_forall("epoch.member_e_only_sees_own_bootstrap_row", [INT] * 3,
+                       lambda k, e, b: z3.Implies(rng(k, e, b), z3.And(col(k, b) >= 0, col(k, b) < mz,
+                                                                        C.as_int(idx.at(k, e, b)) == C.as_int(boot.at(e, Sym(pi(col(k, b))))))),
+                       hint="k", using=["perm"])
+    # ... and no column of that row twice in one epoch
+    E.st.oblige_forall("epoch.each_bootstrap_column_at_most_once", [INT] * 4,
+                       lambda k, b, k2, b2: z3.Implies(z3.And(inb(k, NB), inb(b, BS), inb(k2, NB), inb(b2, BS), z3.Or(k != k2, b != b2)),
+                                                        pi(col(k, b)) != pi(col(k2, b2))),
+                       hint="k", using=["perm"])
+    E.oblige("canary.epoch", Sym(C.as_int(idx.at(0, 0, 0)) == 0), assume_after=False, using=[])
+
+
+def setup_train_ensemble(shared):
+    member_stub(shared)
+
+    def bootstrap_stub(E, n_ensemble, train_size, n_samples, key):
+        """contract of bootstrap (task `bootstrap`): (n_ensemble, m) indices in [0, n_samples)"""
+        g = E.st.ghost
+        m = g["c17_ctx"]["m"]
+        boot = T.fresh_tensor("bootstrap_indices", (n_ensemble, m), INT)
+        E.st.assume_forall([INT, INT], lambda e, c: z3.And(C.as_int(boot.at(e, c)) >= 0, C.as_int(boot.at(e, c)) < C.as_int(n_samples)), "boot.range")
+        g.setdefault("c17_boot_calls", []).append(dict(args=(n_ensemble, train_size, n_samples, key), boot=boot))
+        g["c17_ctx"]["boot"] = boot
+        return boot
+
+    def train_epoch_stub(E, model, optimizer, X, Y, indices):
+        loss = E.st.fresh_sym("epoch_loss", REAL)
+        ep = dict(model=model, optimizer=optimizer, X=X, Y=Y, indices=indices, perm=E.st.ghost.get("perms", [None])[-1], loss=loss)
+        E.st.ghost.setdefault("c17_epochs", []).append(ep)
+        epoch_obligations(E, ep)
+        return loss
+
+    shared.stubs[PE + "bootstrap"] = bootstrap_stub
+    shared.stubs[PE + "train_epoch"] = train_epoch_stub
+
+
+def mk_train_ensemble(n_epochs):
+    """n_epochs: python int (loop unrolled) or None (symbolic number of epochs: the
+    loop is cut and its body verified for a generic epoch with arbitrary key)"""
+    def h(E):
+        D = E.dim("n_outputs")
+        en = Ens(E, D)
+        opt = mk_optimizer(E, "optimizer", en.obj)
+        n = E.dim("n_data", 1)
+        X = rows_tensor(E, "X", (n,), en.F)
+        Y = T.fresh_tensor("Y", (n, D), REAL)
+        m = E.dim("n_bootstrapped", 1)
+        BS = E.dim("batch_size", 1)
+        E.st.ghost["c17_ctx"] = dict(en=en, opt=opt, X=X, Y=Y, m=m, BS=BS, boot=None)
+        ts = E.real("train_size")
+        key = E.val("key", KEY)
+        ne = n_epochs if n_epochs is not None else E.int("n_epochs", 1)
+        loss = E.call(PE + "train_ensemble", en.obj, opt, ts, X, Y, ne, BS, key)
+        g = E.st.ghost
+        bc = g.get("c17_boot_calls", [])
+        ok = len(bc) == 1 and T.dim_eq(T.norm_dim(bc[0]["args"][0]), en.K) and bc[0]["args"][1] is ts and T.dim_eq(T.norm_dim(bc[0]["args"][2]), n)
+        (E.st.ok if ok else (lambda nm: E.st.fail(nm, f"{len(bc)} bootstrap calls / wrong arguments")))("post.bootstraps_once_for_all_members_from_the_data_set")
+        if n_epochs is None:
+            return
+        eps = g.get("c17_epochs", [])
+        (E.st.ok if len(eps) == n_epochs else (lambda nm: E.st.fail(nm, f"{len(eps)} passes for {n_epochs} epochs")))("post.one_training_pass_per_epoch")
+        ok = bool(eps) and isinstance(loss, Sym) and C.to_z3(loss).eq(C.to_z3(eps[-1]["loss"]))
+        (E.st.ok if ok else (lambda nm: E.st.fail(nm, str(loss))))("post.returns_last_epoch_loss")
+    return h
+
+
 TASKS = [
     Task("call[rank2,D]", mk_call(2), setup=member_stub),
     Task("call[rank2,D=1]", mk_call(2, True), setup=member_stub),
@@ -538,12 +779,17 @@ TASKS = [
     Task("gaussian_nll[shape_mismatch]", h_nll_shape_mismatch),
     Task("gaussian_ensemble_loss", h_ensemble_loss, setup=member_stub),
     Task("bootstrap", h_bootstrap),
+    Task("train_epoch", h_train_epoch, setup=setup_train_epoch),
+    Task("train_epoch[member_axis_mismatch]", h_train_epoch_wrong_members, setup=setup_train_epoch),
+    Task("train_ensemble", mk_train_ensemble(None), setup=setup_train_ensemble),
+    Task("train_ensemble[2 epochs]", mk_train_ensemble(2), setup=setup_train_ensemble, bounded="n_epochs = 2 (loop unrolled: one pass per epoch, last loss returned)"),
     Task("evaluate_plans", h_evaluate_plans),
     Task("pendulum_reward[batch1]", mk_pendulum_closed(1)),
     Task("pendulum_reward[batch3]", mk_pendulum_closed(3)),
     Task("pendulum_reward[single]", mk_pendulum_closed(0)),
     Task("pendulum_reward[gymnasium]", h_pendulum_gym),
     Task("norm_angle", h_norm_angle),
+    Task("ts_inf[H=2,obs=2,act=1]", mk_ts_inf(2, 2, 1), setup=member_stub, bounded="plan_horizon = 2, observation size 2, action size 1"),
     Task("gaussian_mlp[separate_heads,rank2]", mk_gaussian_mlp(False, [16, 16], 2)),
     Task("gaussian_mlp[shared_head,rank2]", mk_gaussian_mlp(True, [16], 2)),
     Task("gaussian_mlp[separate_heads,rank1]", mk_gaussian_mlp(False, [], 1)),
